@@ -29,13 +29,34 @@ VerdictConv(r) == LET i == PUnits[r.i]  j == PUnits[r.j]  x == FromWire(r.x)
                       g == Gcd(Gcd(a0, b0), c0)
                       a == DivModT(a0, g)[1]  b == DivModT(b0, g)[1]  c == DivModT(c0, g)[1]
                       num == Add(Mul(x, a), b)  qr == DivModT(num, c)
-                      calc == IF BitsOf(r.R1) >= BitsOf(r.R2) THEN r.R1 ELSE r.R2
+                      f2 == IsFloatRep(r.R2)
+                      calc == IF f2 THEN "i64" ELSE IF BitsOf(r.R1) >= BitsOf(r.R2) THEN r.R1 ELSE r.R2
                       \* every intermediate the library can form is a divisor-scaled part of these reduced numerators: if they fit the
-                      \* smaller of the reps involved, "the intermediate displacement is representable in the reps used"
-                      small == Le(Add(BAbs(Mul(x, a)), BAbs(b)), MaxOf(IF Signed(calc) THEN calc ELSE "i32")) /\ Le(c, MaxOf("i32"))
-                      claimed == qr[2] = Zero /\ InRange(r.R2, qr[1]) /\ small IN
+                      \* smaller of the reps involved, "the intermediate displacement is representable in the reps used".
+                      \*   floating destination: the calculation runs in that type; integers below 2^53 are exact in it
+                      \*   unsigned -> unsigned with a common origin: pure scaling in the wider unsigned type, no negative intermediate
+                      lim == IF f2 THEN P2(Prec(r.R2))
+                             ELSE IF Signed(calc) THEN MaxOf(calc)
+                             ELSE IF ~Signed(r.R1) /\ ~Signed(r.R2) /\ b = Zero THEN MaxOf(calc) ELSE MaxOf("i32")     \* b = 0: common origin
+                      \* the library calculates in ITS common point unit cp (read out of CommonPointUnitT<U_i, U_j>; its correctness is C10's
+                      \* subject): intermediates are x * (s_i / cp) and the origin difference in cp units; k2 = s_j / cp is the final divisor
+                      cpn == Encl(r.cp, 1, 1).nl  cpd == Encl(r.cp, 1, 1).dl
+                      k1qr == DivModT(Mul(SN(i), cpd), Mul(SD(i), cpn))   k2qr == DivModT(Mul(SN(j), cpd), Mul(SD(j), cpn))
+                      dqr == DivModT(Mul(Sub(Mul(ONum(i), ODen(j)), Mul(ONum(j), ODen(i))), cpd), Mul(Mul(ODen(i), ODen(j)), cpn))
+                      small == /\ k1qr[2] = Zero /\ k2qr[2] = Zero /\ dqr[2] = Zero
+                               /\ Le(Add(BAbs(Mul(x, k1qr[1])), BAbs(dqr[1])), lim) /\ Le(k2qr[1], MaxOf("i32"))
+                      inr == IF f2 THEN Le(BAbs(qr[1]), P2(Prec(r.R2))) ELSE InRange(r.R2, qr[1])
+                      claimed == qr[2] = Zero /\ inr /\ small
+                      \* floating destination: the stored value v = m * 2^e must satisfy |v * c - num| * 2^(p-8) <= |x*a| + |b| + c
+                      fm == IF f2 THEN SMant(r.resf) ELSE Zero   fe == IF f2 THEN FExp(r.resf) ELSE 0
+                      tolb == IF f2 THEN Prec(r.R2) - 8 ELSE 0
+                      lhs == IF fe >= 0 THEN Mul(BAbs(Sub(Mul(Mul(fm, P2(fe)), c), num)), P2(tolb))
+                             ELSE Mul(BAbs(Sub(Mul(fm, c), Mul(num, P2(-fe)))), P2(tolb))
+                      rhs == IF fe >= 0 THEN Add(Add(BAbs(Mul(x, a)), BAbs(b)), c) ELSE Mul(Add(Add(BAbs(Mul(x, a)), BAbs(b)), c), P2(-fe))
+                      resok == IF f2 THEN (IsFin(r.resf) /\ Le(lhs, rhs)) ELSE FromWire(r.res) = qr[1] IN
   \* forms: coerce_in<R>(u), coerce_as<R>(u), in<R>(u), as<R>(u) and (same rep) the unit-only coerce_in(u), coerce_as(u) all agree
-  [ok |-> r.forms = 1 /\ (claimed => (FromWire(r.res) = qr[1] /\ r.ub = 0)), exact |-> qr[2] = Zero, cmp |-> (r.cexact = 1) = (qr[2] = Zero)]
+  \* with two unsigned reps the calculation type is unsigned: wrap-around there is defined modular arithmetic, not an event
+  [ok |-> r.forms = 1 /\ (claimed => (resok /\ (r.ub = 0 \/ (~f2 /\ ~Signed(r.R1) /\ ~Signed(r.R2))))), exact |-> qr[2] = Zero, cmp |-> (r.cexact = 1) = (qr[2] = Zero)]
 (* mixed: {i, j, x, y, lt..ne, dval (wire), dmag (pack of the difference's unit), sumq (p1 + (y in U_j as quantity)) position check} *)
 VerdictMixedPt(r) ==
   LET i == PUnits[r.i]  j == PUnits[r.j]  x == FromWire(r.x)  y == FromWire(r.y)
